@@ -107,6 +107,48 @@ fn on_wire(t: &T2, sid: u32) -> bool {
     t.subject_frames().iter().any(|f| matches!(&f.parsed, Ok(Parsed::Headers { sid: s, .. }) if *s == sid))
 }
 
+/// What may a connection still remember once every stream has closed both ways and every handle is gone?
+pub fn leak_checks(s: &h2::verif::StreamsSnapshot, expire_now: bool, n_streams: usize, v: &mut V3) {
+        let remembered: Vec<&String> = s.streams.iter().collect();
+        let max_remembered = if expire_now { 0 } else { 2 };
+        if remembered.len() > max_remembered {
+            v.push((
+                "C19.stream-record-retained".to_string(),
+                format!("{}>{}", remembered.len(), max_remembered),
+                format!("all {} streams have closed both ways and every handle is dropped, yet {} stream records are retained (allowed: {} remembered local resets): {}", n_streams, remembered.len(), max_remembered, remembered.iter().map(|x| x.chars().take(160).collect::<String>()).collect::<Vec<_>>().join(" || ")),
+            ));
+        }
+        for r in &remembered {
+            if !expire_now && !(r.contains("reset_at") || r.contains("Reset") || r.contains("ScheduledLibraryReset")) {
+                v.push(("C19.stream-record-retained".into(), "not-a-reset".into(), format!("a retained stream record is not a remembered local reset: {}", r.chars().take(200).collect::<String>())));
+            }
+        }
+        for (key, want) in [("num_send_streams: ", 0), ("num_recv_streams: ", 0)] {
+            if let Some(n) = num_after(&s.counts, key) {
+                if n != want {
+                    v.push(("C19.counter-not-idle".into(), key.trim().trim_end_matches(':').to_string(), format!("with no stream left, Counts has {}{} ({})", key, n, s.counts)));
+                }
+            }
+        }
+        if s.recv_buffered != 0 || s.send_buffered != 0 {
+            v.push(("C19.buffer-not-empty".into(), format!("recv={} send={}", s.recv_buffered.min(1), s.send_buffered.min(1)), format!("with no stream left, {} received events and {} frames to send are still buffered", s.recv_buffered, s.send_buffered)));
+        }
+        if let Some(n) = num_after(&s.recv, "in_flight_data: ") {
+            if n != 0 {
+                v.push(("C19.flow-not-idle".into(), "in_flight_data".into(), format!("with no stream left, the connection still counts {} received octets as in flight", n)));
+            }
+        }
+        // send side: the whole connection window is unassigned again
+        if let Some(p) = s.send.find("prioritize: Prioritize") {
+            let pr = &s.send[p..];
+            if let (Some(ws), Some(av)) = (num_after(pr, "window_size: Window("), num_after(pr, "available: Window(")) {
+                if ws != av {
+                    v.push(("C19.flow-not-idle".into(), "send-window-assigned".into(), format!("with no stream left, {} of {} octets of the connection send window are still assigned to streams", ws - av, ws)));
+                }
+            }
+        }
+}
+
 impl Model for LifeModel {
     type World = World;
     fn name(&self) -> &'static str {
@@ -298,44 +340,7 @@ impl Model for LifeModel {
         // 3. what does the connection still remember?
         if let Conn::Client(c) = &t.conn {
             let s = c.verif_snapshot();
-            let remembered: Vec<&String> = s.streams.iter().collect();
-            let max_remembered = if self.expire_now { 0 } else { 2 };
-            if remembered.len() > max_remembered {
-                v.push((
-                    "C19.stream-record-retained".to_string(),
-                    format!("{}>{}", remembered.len(), max_remembered),
-                    format!("all {} streams have closed both ways and every handle is dropped, yet {} stream records are retained (allowed: {} remembered local resets): {}", w.reqs.len(), remembered.len(), max_remembered, remembered.iter().map(|x| x.chars().take(160).collect::<String>()).collect::<Vec<_>>().join(" || ")),
-                ));
-            }
-            for r in &remembered {
-                if !self.expire_now && !(r.contains("reset_at") || r.contains("Reset") || r.contains("ScheduledLibraryReset")) {
-                    v.push(("C19.stream-record-retained".into(), "not-a-reset".into(), format!("a retained stream record is not a remembered local reset: {}", r.chars().take(200).collect::<String>())));
-                }
-            }
-            for (key, want) in [("num_send_streams: ", 0), ("num_recv_streams: ", 0)] {
-                if let Some(n) = num_after(&s.counts, key) {
-                    if n != want {
-                        v.push(("C19.counter-not-idle".into(), key.trim().trim_end_matches(':').to_string(), format!("with no stream left, Counts has {}{} ({})", key, n, s.counts)));
-                    }
-                }
-            }
-            if s.recv_buffered != 0 || s.send_buffered != 0 {
-                v.push(("C19.buffer-not-empty".into(), format!("recv={} send={}", s.recv_buffered.min(1), s.send_buffered.min(1)), format!("with no stream left, {} received events and {} frames to send are still buffered", s.recv_buffered, s.send_buffered)));
-            }
-            if let Some(n) = num_after(&s.recv, "in_flight_data: ") {
-                if n != 0 {
-                    v.push(("C19.flow-not-idle".into(), "in_flight_data".into(), format!("with no stream left, the connection still counts {} received octets as in flight", n)));
-                }
-            }
-            // send side: the whole connection window is unassigned again
-            if let Some(p) = s.send.find("prioritize: Prioritize") {
-                let pr = &s.send[p..];
-                if let (Some(ws), Some(av)) = (num_after(pr, "window_size: Window("), num_after(pr, "available: Window(")) {
-                    if ws != av {
-                        v.push(("C19.flow-not-idle".into(), "send-window-assigned".into(), format!("with no stream left, {} of {} octets of the connection send window are still assigned to streams", ws - av, ws)));
-                    }
-                }
-            }
+            leak_checks(&s, self.expire_now, w.reqs.len(), &mut v);
         }
         // 4. the last request handle goes: GOAWAY(NO_ERROR), transport shutdown, Ok(()) - and the connection was woken to do it
         while let Some(h) = w.clones.pop() {
@@ -396,6 +401,287 @@ impl Model for LifeModel {
     }
 }
 
+// ---------------------------------------------------------------------------------------------
+// server side
+
+#[derive(Clone, Debug)]
+pub enum SEv {
+    PeerOpen(bool),
+    PeerData(usize),
+    PeerEnd(usize),
+    PeerRst(usize),
+    Respond(usize, bool),
+    SendEos(usize),
+    ServerReset(usize),
+    Push(usize),
+    ReadAll(usize),
+    DropBody(usize),
+    DropRespond(usize),
+    DropSend(usize),
+    Drive,
+    TimePasses,
+}
+
+pub struct SWorld {
+    pub opened: Vec<u32>,
+    pub pushed: Vec<h2::SendStream<Bytes>>,
+    pub resets: u64,
+    pub pushes: u64,
+}
+
+pub struct ServerLife {
+    pub events: Vec<SEv>,
+    pub name: &'static str,
+    pub expire_now: bool,
+}
+
+impl ServerLife {
+    pub fn new(name: &'static str, quick: bool, expire_now: bool) -> ServerLife {
+        let mut ev = vec![SEv::PeerOpen(true), SEv::PeerOpen(false)];
+        for k in 0..2 {
+            if !quick {
+                ev.push(SEv::PeerData(k));
+            }
+            ev.push(SEv::PeerEnd(k));
+            ev.push(SEv::PeerRst(k));
+            ev.push(SEv::Respond(k, true));
+            ev.push(SEv::Respond(k, false));
+            ev.push(SEv::SendEos(k));
+            ev.push(SEv::ServerReset(k));
+            if k == 0 {
+                ev.push(SEv::Push(k));
+            }
+            ev.push(SEv::ReadAll(k));
+            ev.push(SEv::DropBody(k));
+            ev.push(SEv::DropRespond(k));
+            ev.push(SEv::DropSend(k));
+        }
+        ev.push(SEv::Drive);
+        if expire_now {
+            ev.push(SEv::TimePasses);
+        }
+        ServerLife { events: ev, name, expire_now }
+    }
+}
+
+impl Model for ServerLife {
+    type World = SWorld;
+    fn name(&self) -> &'static str {
+        self.name
+    }
+    fn cfg(&self) -> T2Cfg {
+        let mut sb = h2::server::Builder::new();
+        sb.reset_stream_duration(if self.expire_now { std::time::Duration::from_secs(0) } else { std::time::Duration::from_secs(3600) });
+        sb.max_concurrent_reset_streams(2);
+        sb.initial_window_size(6);
+        T2Cfg { role: Side::Server, peer_settings: vec![], client: None, server: Some(sb), policy: IoPolicy::default() }
+    }
+    fn init(&self, _t: &mut T2) -> SWorld {
+        SWorld { opened: vec![], pushed: vec![], resets: 0, pushes: 0 }
+    }
+    fn n_events(&self) -> usize {
+        self.events.len()
+    }
+    fn event_name(&self, e: usize) -> String {
+        format!("{:?}", self.events[e])
+    }
+    fn enabled(&self, t: &T2, w: &SWorld, e: usize) -> bool {
+        if !t.conn_alive() {
+            return false;
+        }
+        let acc = |k: usize| w.opened.get(k).and_then(|sid| t.accepted.iter().find(|a| a.sid == *sid));
+        let peer_open = |k: usize| w.opened.get(k).map(|&sid| !peer_closed(t, sid) && t.rst_sent(sid).is_empty()).unwrap_or(false);
+        match &self.events[e] {
+            SEv::PeerOpen(_) => w.opened.len() < 2,
+            SEv::PeerData(k) => peer_open(*k) && peer_frames(t, w.opened[*k]).iter().filter(|f| f.raw.ty == wf::ty::DATA).count() < 1,
+            SEv::PeerEnd(k) | SEv::PeerRst(k) => peer_open(*k),
+            SEv::Respond(k, _) | SEv::ServerReset(k) | SEv::DropRespond(k) | SEv::Push(k) => acc(*k).map(|a| a.respond.is_some()).unwrap_or(false) && (!matches!(self.events[e], SEv::Push(_)) || w.pushes < 1),
+            SEv::SendEos(k) | SEv::DropSend(k) => acc(*k).map(|a| a.send.is_some()).unwrap_or(false),
+            SEv::ReadAll(k) | SEv::DropBody(k) => acc(*k).map(|a| a.body.is_some()).unwrap_or(false),
+            SEv::Drive | SEv::TimePasses => true,
+        }
+    }
+    fn apply(&self, t: &mut T2, w: &mut SWorld, e: usize) {
+        let mut panics = vec![];
+        let flag = Flag::new(false);
+        let wk = waker_of(&flag);
+        let mut cx = Context::from_waker(&wk);
+        let sid_of = |w: &SWorld, k: usize| w.opened[k];
+        match self.events[e].clone() {
+            SEv::PeerOpen(eos) => {
+                let sid = 1 + 2 * w.opened.len() as u32;
+                t.peer_request(sid, "/s", eos);
+                w.opened.push(sid);
+            }
+            SEv::PeerData(k) => t.peer_send(&wf::data(sid_of(w, k), b"body", false)),
+            SEv::PeerEnd(k) => t.peer_send(&wf::data(sid_of(w, k), b"end!", true)),
+            SEv::PeerRst(k) => t.peer_send(&wf::rst_stream(sid_of(w, k), 8)),
+            SEv::Respond(k, eos) => {
+                let sid = sid_of(w, k);
+                if let Some(a) = t.accepted.iter_mut().find(|a| a.sid == sid) {
+                    if let Some(mut r) = a.respond.take() {
+                        match guarded(&mut panics, "send_response", || r.send_response(simple_response(200), eos)) {
+                            Some(Ok(ss)) => {
+                                if eos {
+                                    safe_drop(&mut panics, "SendStream", Some(ss));
+                                } else {
+                                    a.send = Some(ss);
+                                }
+                            }
+                            _ => {}
+                        }
+                    }
+                }
+            }
+            SEv::SendEos(k) => {
+                let sid = sid_of(w, k);
+                if let Some(a) = t.accepted.iter_mut().find(|a| a.sid == sid) {
+                    if let Some(mut ss) = a.send.take() {
+                        let _ = guarded(&mut panics, "send_data", || ss.send_data(Bytes::from_static(b"done"), true));
+                        safe_drop(&mut panics, "SendStream", Some(ss));
+                    }
+                }
+            }
+            SEv::ServerReset(k) => {
+                let sid = sid_of(w, k);
+                if let Some(a) = t.accepted.iter_mut().find(|a| a.sid == sid) {
+                    if let Some(mut r) = a.respond.take() {
+                        guarded(&mut panics, "send_reset", || r.send_reset(h2::Reason::CANCEL));
+                        w.resets += 1;
+                    }
+                }
+            }
+            SEv::Push(k) => {
+                let sid = sid_of(w, k);
+                if let Some(a) = t.accepted.iter_mut().find(|a| a.sid == sid) {
+                    if let Some(r) = a.respond.as_mut() {
+                        if let Some(Ok(mut p)) = guarded(&mut panics, "push_request", || r.push_request(simple_request("/pushed", false))) {
+                            if let Some(Ok(ss)) = guarded(&mut panics, "pushed send_response", || p.send_response(simple_response(200), false)) {
+                                w.pushed.push(ss);
+                            }
+                            w.pushes += 1;
+                        }
+                    }
+                }
+            }
+            SEv::ReadAll(k) => {
+                let sid = sid_of(w, k);
+                if let Some(b) = t.accepted.iter_mut().find(|a| a.sid == sid).and_then(|a| a.body.as_mut()) {
+                    for _ in 0..8 {
+                        match guarded(&mut panics, "poll_data", || b.poll_data(&mut cx)) {
+                            Some(Poll::Ready(Some(Ok(d)))) => {
+                                let _ = b.flow_control().release_capacity(d.len());
+                            }
+                            _ => break,
+                        }
+                    }
+                }
+            }
+            SEv::DropBody(k) => {
+                let sid = sid_of(w, k);
+                if let Some(a) = t.accepted.iter_mut().find(|a| a.sid == sid) {
+                    safe_drop(&mut panics, "RecvStream", a.body.take());
+                }
+            }
+            SEv::DropRespond(k) => {
+                let sid = sid_of(w, k);
+                if let Some(a) = t.accepted.iter_mut().find(|a| a.sid == sid) {
+                    safe_drop(&mut panics, "SendResponse", a.respond.take());
+                }
+            }
+            SEv::DropSend(k) => {
+                let sid = sid_of(w, k);
+                if let Some(a) = t.accepted.iter_mut().find(|a| a.sid == sid) {
+                    safe_drop(&mut panics, "SendStream", a.send.take());
+                }
+            }
+            SEv::Drive => {
+                t.drive(200);
+            }
+            SEv::TimePasses => {
+                std::thread::sleep(std::time::Duration::from_micros(30));
+                t.conn_flag.wake_by_ref_pub();
+                t.drive(200);
+            }
+        }
+        t.panics.extend(panics);
+        t.catch_up();
+    }
+    fn invariant(&self, _t: &mut T2, _w: &mut SWorld) -> V3 {
+        vec![]
+    }
+    fn epilogue(&self, t: &mut T2, w: &mut SWorld) -> V3 {
+        let mut v = vec![];
+        let mut panics = vec![];
+        if !t.conn_alive() {
+            return v;
+        }
+        t.drive(300);
+        // 1. every stream finishes: the peer ends what it has not ended, the application answers what it has not answered
+        for &sid in &w.opened {
+            if !peer_closed(t, sid) && t.rst_sent(sid).is_empty() {
+                t.peer_send(&wf::data(sid, b"", true));
+            }
+        }
+        t.drive(300);
+        for a in t.accepted.iter_mut() {
+            if let Some(mut r) = a.respond.take() {
+                let _ = guarded(&mut panics, "send_response", || r.send_response(simple_response(200), true).map(drop));
+            }
+            if let Some(mut ss) = a.send.take() {
+                let _ = guarded(&mut panics, "send_data", || ss.send_data(Bytes::new(), true));
+                safe_drop(&mut panics, "SendStream", Some(ss));
+            }
+        }
+        for mut ss in w.pushed.drain(..) {
+            let _ = guarded(&mut panics, "pushed send_data", || ss.send_data(Bytes::new(), true));
+            safe_drop(&mut panics, "SendStream", Some(ss));
+        }
+        t.drive(300);
+        // 2. the application lets go of everything
+        for a in t.accepted.iter_mut() {
+            safe_drop(&mut panics, "RecvStream", a.body.take());
+            safe_drop(&mut panics, "SendResponse", a.respond.take());
+            safe_drop(&mut panics, "SendStream", a.send.take());
+        }
+        t.drive(300);
+        if self.expire_now {
+            std::thread::sleep(std::time::Duration::from_micros(30));
+            t.conn_flag.wake_by_ref_pub();
+            t.drive(300);
+        }
+        t.catch_up();
+        t.panics.extend(panics);
+        if !t.panics.is_empty() || !t.conn_alive() || t.goaway_sent().is_some() {
+            return v;
+        }
+        if let Conn::Server(c) = &t.conn {
+            let s = c.verif_snapshot();
+            leak_checks(&s, self.expire_now, w.opened.len() + w.pushes as usize, &mut v);
+        }
+        v
+    }
+    fn digest_extra(&self, t: &T2, w: &SWorld) -> String {
+        let mut s = format!("pushed={} pushes={}", w.pushed.len(), w.pushes);
+        for &sid in &w.opened {
+            let a = t.accepted.iter().find(|a| a.sid == sid);
+            s.push_str(&format!("|{}:acc={} body={} resp={} send={} peer={:?} rst={:?}", sid, a.is_some(), a.map(|a| a.body.is_some()).unwrap_or(false), a.map(|a| a.respond.is_some()).unwrap_or(false), a.map(|a| a.send.is_some()).unwrap_or(false), peer_frames(t, sid).iter().map(|f| (f.raw.ty, f.raw.flags & 1)).collect::<Vec<_>>(), t.rst_sent(sid)));
+        }
+        s
+    }
+    fn teardown(&self, mut t: T2, w: SWorld) -> Vec<String> {
+        let mut panics = std::mem::take(&mut t.panics);
+        for ss in w.pushed {
+            safe_drop(&mut panics, "SendStream", Some(ss));
+        }
+        t.panics = panics;
+        t.finish()
+    }
+    fn counters(&self, _t: &T2, w: &SWorld) -> Vec<(&'static str, u64)> {
+        vec![("server_streams", w.opened.len() as u64), ("server_resets", w.resets), ("pushes", w.pushes)]
+    }
+}
+
 pub fn run(ctx: &Ctx) -> Outcome {
     let mut out = Outcome::default();
     let quick = ctx.tier.is_quick();
@@ -404,18 +690,24 @@ pub fn run(ctx: &Ctx) -> Outcome {
     let m2 = LifeModel::new(if quick { "life-expire-q" } else { "life-expire-t" }, quick, true);
     let maxd = if quick { 8 } else { 11 };
     let m3 = LifeModel::new_variant(if quick { "life-mid-q" } else { "life-mid-t" }, quick, false, true);
-    let r1 = search(ctx, &m1, "C19", maxd, budget * 0.36, true);
-    let r2 = search(ctx, &m2, "C19", maxd, budget * 0.7, true);
-    let r3 = search(ctx, &m3, "C19", maxd, budget * 0.97, true);
-    fill_outcome(&mut out, &[(m1.name, &r1), (m2.name, &r2), (m3.name, &r3)]);
+    let s1 = ServerLife::new(if quick { "server-life-remember-q" } else { "server-life-remember-t" }, quick, false);
+    let s2 = ServerLife::new(if quick { "server-life-expire-q" } else { "server-life-expire-t" }, quick, true);
+    let r1 = search(ctx, &m1, "C19", maxd, budget * 0.25, true);
+    let r2 = search(ctx, &m2, "C19", maxd, budget * 0.45, true);
+    let r3 = search(ctx, &m3, "C19", maxd, budget * 0.6, true);
+    let r4 = search(ctx, &s1, "C19", maxd, budget * 0.8, true);
+    let r5 = search(ctx, &s2, "C19", maxd, budget * 0.97, true);
+    fill_outcome(&mut out, &[(m1.name, &r1), (m2.name, &r2), (m3.name, &r3), (s1.name, &r4), (s2.name, &r5)]);
     out.set("exhaustive", json!(false));
     out.set("alphabet", json!(m2.events.iter().map(|e| format!("{:?}", e)).collect::<Vec<_>>()));
-    out.set("rule", json!("X2 on T2 (real client, stream window 6, 2-3 streams, two SendRequest clones, reset memory 'never expires' / 'expires at once', and a third start state with an exchange complete on the wire but not yet read): request (with / without body), END_STREAM, peer response (END_STREAM or not), peer DATA END_STREAM, peer RST_STREAM, poll the response, read, client reset, drop of ResponseFuture / SendStream / RecvStream / a SendRequest clone in every order relative to connection polls, time passing. Epilogue from every new state: every stream is finished by both sides, every stream handle dropped, quiescence - then the snapshot hook must show no stream record beyond <= 2 remembered local resets (none once expired), both stream counters 0, empty receive / send buffers, no in-flight octets, the whole connection send window unassigned; then the last SendRequest is dropped: the connection task must have been woken, GOAWAY(NO_ERROR) on the wire, transport shut down, future Ok(()). Any panic ('dangling store key', Store/Counts drop assertions) is a violation"));
+    out.set("rule", json!("X2 on T2 (real client, stream window 6, 2-3 streams, two SendRequest clones, reset memory 'never expires' / 'expires at once', and a third start state with an exchange complete on the wire but not yet read): request (with / without body), END_STREAM, peer response (END_STREAM or not), peer DATA END_STREAM, peer RST_STREAM, poll the response, read, client reset, drop of ResponseFuture / SendStream / RecvStream / a SendRequest clone in every order relative to connection polls, time passing. Epilogue from every new state: every stream is finished by both sides, every stream handle dropped, quiescence - then the snapshot hook must show no stream record beyond <= 2 remembered local resets (none once expired), both stream counters 0, empty receive / send buffers, no in-flight octets, the whole connection send window unassigned; then the last SendRequest is dropped: the connection task must have been woken, GOAWAY(NO_ERROR) on the wire, transport shut down, future Ok(()). Any panic ('dangling store key', Store/Counts drop assertions) is a violation. Server side (two more models): peer opens up to two streams (with / without body), DATA, END_STREAM, RST_STREAM; the application responds (END_STREAM or not), ends the body, resets, pushes, reads, drops RecvStream / SendResponse / SendStream in every order relative to connection polls; the same leak oracle after everything has finished"));
     out.add_sample(json!({"harness": format!("x2.{}", m1.name), "depth": 3, "choices": [1, 25, 4]}));
     let mut vs = VioSet::default();
     vs.merge(r1.agg.vios);
     vs.merge(r2.agg.vios);
     vs.merge(r3.agg.vios);
+    vs.merge(r4.agg.vios);
+    vs.merge(r5.agg.vios);
     out.violations = vs.into_vec();
     out.guard_nonzero("client resets", out.coverage.get("mechanism_counters").and_then(|m| m.get("client_resets")).and_then(|v| v.as_u64()).unwrap_or(0));
     out
@@ -423,6 +715,14 @@ pub fn run(ctx: &Ctx) -> Outcome {
 
 pub fn replay(v: &serde_json::Value) -> Option<bool> {
     let h = v["harness"].as_str().unwrap_or("");
+    for quick in [true, false] {
+        for (n, e) in [("server-life-remember", false), ("server-life-expire", true)] {
+            let name: &'static str = Box::leak(format!("{}-{}", n, if quick { "q" } else { "t" }).into_boxed_str());
+            if h == format!("x2.{}", name) {
+                return Some(replay_model(&ServerLife::new(name, quick, e), "C19", v));
+            }
+        }
+    }
     for quick in [true, false] {
         for (n, e, mid) in [("life-remember", false, false), ("life-expire", true, false), ("life-mid", false, true)] {
             let name: &'static str = Box::leak(format!("{}-{}", n, if quick { "q" } else { "t" }).into_boxed_str());
